@@ -14,6 +14,9 @@ import Usual.C09.SafeMul
     `…Req` says whether and with which size the parent is called.  Core Lean only. -/
 namespace Usual.C09
 
+/-- memory contents (used where the models say what is copied or initialised) -/
+abbrev Mem := Nat → UInt8
+
 /-- `CUSTOM_ALIGN(x, a)` for a power of two `a` (`(x + a - 1) & ~(a - 1)`) -/
 def alignUp (x a : Nat) : Nat := (x + a - 1) / a * a
 
